@@ -298,7 +298,10 @@ def run_trace(ctx, module, trace_path, cfg=None, timeout=900, xss="1g"):
     gen = distinct = 0
     if m:
         gen, distinct = [int(x.replace(",", "")) for x in m[-1]]
-    rej = re.findall(r'<<"REJECTED", (.*)>>\s+FALSE', txt)
+    rej = re.findall(r'<<\s*"REJECTED",\s*(.*?)>>\s+FALSE', txt, re.S)
+    rej = [re.sub(r"\s+", " ", x) for x in rej]
+    if not rej and re.search(r"Postcondition PostAccepted .* is false", txt):
+        rej = ["(record not printed) " + err_excerpt(txt)[:600]]
     accepted = ("Postcondition" not in txt) and ("Error:" not in txt) and distinct > 0
     run = {"module": module, "cfg": cfg, "generated": gen, "distinct": distinct, "trace": os.path.basename(trace_path),
            "accepted": accepted, "wall_s": round(time.time() - t0, 1)}
